@@ -373,12 +373,35 @@ def generate(run_seed, deep=False):
         if not live and len(ops) >= 8 and sc.random() < 0.3:
             break
     npints_variation(st["npints"], ops)
+    errstate_variation(st["errstate"], ops)
     G.bitgen_variation(st["bitgen"], ops)
     G.generator_seed_variation(st["genseed"], ops, lambda r: r.get("op") == "call" and r.get("api") in
                                ("lganm.new", "gen.dag_avg_deg", "gen.dag_full", "gen.intervention_targets",
                                 "utils.split_data", "utils.add_edges", "utils.remove_edges") and not r.get("posseed"))
     np_star_faults(st["np_star"], ops)
     return cfg, ops
+
+
+def errstate_variation(f, ops):
+    """In about one run in twelve the application changes its numpy error state a few times during the session
+    (np.seterr: stricter, or back to the default), and one Gaussian signature gets a nearly deterministic noise term
+    (variance 1e-200: arithmetic on it underflows).  Decided by a stream of its own, after generation."""
+    r, k = f.random(), f.randint(2, 4)
+    plan = [(f.random(), f.choice([{"under": "raise"}, {"all": "raise"}, None, {"under": "raise", "over": "raise"}]))
+            for _ in range(4)]
+    sigs = sorted({rec["sig"] for rec in ops if "sig" in rec and rec.get("api") == "lganm.sample"
+                   and not rec.get("args", {}).get("population")})
+    pick, tgt, kind = f.random(), f.random(), f.choice(["noise", "do"])
+    if r >= 0.085:
+        return
+    if sigs:
+        sig = sigs[int(pick * len(sigs))]
+        for rec in ops:
+            if rec.get("sig") == sig:
+                p = spec_p(rec["m"])
+                rec["args"][kind] = [[int(tgt * p), [0.0, 1e-200]]]
+    for pos, state in plan[:k]:
+        ops.insert(int(pos * (len(ops) + 1)), {"c": 0, "op": "np.seterr", "state": state})
 
 
 def npints_variation(f, ops):
@@ -577,7 +600,7 @@ def execute(sempler, run_seed, ops, pristine_budget=4):
             del w.kept[:-6]
         w.record(rec, od)
         evs.append({"i": i, "rec": rec, "pre": pre, "od": od, "ok": out is not None and out[0] == "ok",
-                    "sk": sigkey(rec),
+                    "sk": sigkey(rec), "err": repr(sorted(w.caller_err.items())) if w.caller_err else None,
                     "exc": (type(out[1]).__name__ if out is not None and out[0] == "exc" else None)})
     obligations = oracles(w, pristine_budget)
     return w, obligations
@@ -630,7 +653,7 @@ def fkind(ev):
         return "rng.stdlib"
     if op == "entropy.draw":
         return "entropy"
-    if op in ("gc", "py.import"):
+    if op in ("gc", "py.import", "np.seterr"):
         return "gc"
     if op == "out.scribble":
         return "caller.scribble_output"
@@ -661,7 +684,12 @@ def oracles(w, pristine_budget):
         first = evs[idxs[0]]
         for a, b in zip(idxs, idxs[1:]):
             ea, eb = evs[a], evs[b]
-            if eb["od"] != first["od"]:
+            fpe = "exc:FloatingPointError"
+            if eb["err"] != first["err"]:
+                w.probes["pair.under_different_error_states_of_the_caller"] += 1
+            if eb["od"] != first["od"] and not (eb["err"] != first["err"] and fpe in (eb["od"], first["od"])):
+                # (under a stricter error state of the caller a call may raise FloatingPointError instead of
+                #  returning; what it returns, when it returns, is the same bits)
                 w.violate("pair_differs", SITE[eb["rec"]["api"]],
                           {"variant": variant(eb["rec"]), "first_step": first["i"], "step": eb["i"],
                            "first": first["od"], "later": eb["od"], "seed": eb["rec"]["seed"]}, step=eb["i"])
@@ -765,6 +793,8 @@ def oracles(w, pristine_budget):
         ev = evs[groups[sk][0]]
         obligations.append({"ops": [literal(ev["rec"])], "expect": ev["od"], "step": ev["i"],
                             "site": SITE[ev["rec"]["api"]], "variant": variant(ev["rec"])})
+        if ev["err"]:
+            obligations[-1]["both_ok_only"] = True      # the reference world runs under numpy's default error state
     return obligations
 
 
@@ -810,7 +840,7 @@ REQUIRED_PROBES = ["pair.nontrivial", "pair.seed0", "pair.sep.reseed", "pair.sep
                                                      "nd:gen.dag_avg_deg", "pair.default_seed_argument_omitted",
                                                      "nd.separated_by_an_unseeded_library_call"]
 
-REQUIRED_PROBES = REQUIRED_PROBES + ["call.integers_as_numpy_scalars", "thread.calls_outside_main_thread", "fault.died_in_a_numpy_call(np.*)", "seed.given_as_Generator", "seed.given_as_BitGenerator"]
+REQUIRED_PROBES = REQUIRED_PROBES + ["pair.under_different_error_states_of_the_caller", "call.integers_as_numpy_scalars", "thread.calls_outside_main_thread", "fault.died_in_a_numpy_call(np.*)", "seed.given_as_Generator", "seed.given_as_BitGenerator"]
 
 
 def simplify(op):
